@@ -1,5 +1,6 @@
 import Gmx.Model.Vault
 import Gmx.Gen.C22Sites
+import Gmx.Model.Life
 /-!
 # C22 — market vaults stay solvent after every instruction
 -/
@@ -313,6 +314,93 @@ theorem vault_covers_history (w : World) (ops : List VOp) (hc : Covered w) : Cov
     cases h : wstep w op with
     | none => simpa using ih w hc
     | some w' => simpa using ih w' (wstep_covered hc h)
+
+/-! ### the vault clause on the natively executed deposit life cycle (`Gmx.Life`, tied to the real
+entrypoints with real SPL token movement by `harness/h_store/src/bin/life.rs`) -/
+section Life
+open Gmx.Life
+
+def LifeCovered (s : St) : Prop := s.recLong ≤ s.vaultLong ∧ s.recShort ≤ s.vaultShort
+
+theorem life_create_frame {s s' : St} {u d l sh el : Nat} {ms : Bool} (h : create s u d l sh ms el = some s') :
+    s'.recLong = s.recLong ∧ s'.recShort = s.recShort ∧ s'.vaultLong = s.vaultLong ∧ s'.vaultShort = s.vaultShort := by
+  unfold create at h
+  cases hd : s.deps u d with
+  | some _ => simp [hd] at h
+  | none =>
+    simp only [hd] at h
+    by_cases c1 : l = 0 ∧ sh = 0
+    · simp [c1] at h
+    · by_cases c2 : (s.users u).long < l ∨ (s.users u).short < sh
+      · simp [c1, c2] at h
+      · by_cases c3 : el < MIN_EXEC_LAMPORTS
+        · simp [c1, c2, c3] at h
+        · simp only [c1, c2, c3, if_false] at h
+          cases h; simp [setDep, setUser]
+
+theorem life_close_frame {s s' : St} {who : Who} {u d : Nat} (h : close s who u d = some s') :
+    s'.recLong = s.recLong ∧ s'.recShort = s.recShort ∧ s'.vaultLong = s.vaultLong ∧ s'.vaultShort = s.vaultShort := by
+  unfold close at h
+  cases hd : s.deps u d with
+  | none => simp [hd] at h
+  | some dep =>
+    simp only [hd] at h
+    split at h
+    · cases h
+    · cases h; simp [setDep, setUser]
+
+/-- an execution either leaves recorded and vault balances alone (cancelled) or adds the SAME
+escrowed amounts to both (completed). -/
+theorem life_exec_frame {s s' : St} {who : Who} {u d fee : Nat} {throw : Bool} {o : Life.Outcome} {paid : Nat}
+    (h : exec s who u d fee throw = some (s', o, paid)) :
+    ∃ a b, s'.recLong = s.recLong + a ∧ s'.vaultLong = s.vaultLong + a ∧
+           s'.recShort = s.recShort + b ∧ s'.vaultShort = s.vaultShort + b := by
+  unfold exec at h
+  split at h
+  · cases h
+  · cases hd : s.deps u d with
+    | none => simp [hd] at h
+    | some dep =>
+      simp only [hd] at h
+      split at h
+      · cases h
+      · split at h
+        · cases h
+        · split at h
+          · cases h
+          · by_cases ht : throw = true
+            · simp only [ht, if_true] at h
+              split at h
+              · cases h
+              · split at h
+                · cases h
+                · cases h; exact ⟨dep.escLong, dep.escShort, rfl, rfl, rfl, rfl⟩
+            · simp only [ht, if_false] at h
+              split at h
+              · cases h; exact ⟨0, 0, by simp [setDep], by simp [setDep], by simp [setDep], by simp [setDep]⟩
+              · split at h
+                · cases h; exact ⟨0, 0, by simp [setDep], by simp [setDep], by simp [setDep], by simp [setDep]⟩
+                · cases h; exact ⟨dep.escLong, dep.escShort, rfl, rfl, rfl, rfl⟩
+
+/-- creating, executing (any outcome) and closing a deposit keep the market's recorded balances
+within the real vault balances. -/
+theorem life_recorded_le_vault {s : St} (hc : LifeCovered s) :
+    (∀ {u d l sh ms el s'}, create s u d l sh ms el = some s' → LifeCovered s') ∧
+    (∀ {who u d fee throw s' o paid}, exec s who u d fee throw = some (s', o, paid) → LifeCovered s') ∧
+    (∀ {who u d s'}, close s who u d = some s' → LifeCovered s') := by
+  obtain ⟨h1, h2⟩ := hc
+  refine ⟨?_, ?_, ?_⟩
+  · intro u d l sh ms el s' h
+    obtain ⟨a, b, c, e⟩ := life_create_frame h
+    exact ⟨by omega, by omega⟩
+  · intro who u d fee throw s' o paid h
+    obtain ⟨a, b, e1, e2, e3, e4⟩ := life_exec_frame h
+    exact ⟨by omega, by omega⟩
+  · intro who u d s' h
+    obtain ⟨a, b, c, e⟩ := life_close_frame h
+    exact ⟨by omega, by omega⟩
+
+end Life
 
 /-! ### every recorded movement in the program is one of the modelled kinds (table REGENERATED) -/
 open Gmx.Gen.C22 in
